@@ -586,6 +586,7 @@ class Array(metaclass=MetaArray):
             index = (index,)
         cls = self.__class__
         if hasattr(self, "_offsets"):
+            bound_check(index, self._shape)
             offset = self._offset + self._offsets[index]
         else:
             bound_check(index, self._shape)
@@ -604,6 +605,7 @@ class Array(metaclass=MetaArray):
             self[index]._update(value)
         else:
             if hasattr(self, "_offsets"):
+                bound_check(index, self._shape)
                 offset = self._offset + self._offsets[index]
             else:
                 bound_check(index, self._shape)
@@ -637,6 +639,7 @@ class Array(metaclass=MetaArray):
             index = (index,)
         cls = self.__class__
         if hasattr(self, "_offsets"):
+            bound_check(index, self._shape)
             offset = self._offset + self._offsets[index]
         else:
             bound_check(index, self._shape)
